@@ -566,6 +566,51 @@ pub fn run(thorough: bool) -> Report {
         }
         merge(&total, acc);
     }
+    // A line replaced between two executions is warned about for what it reads now: sessions in
+    // which a line that read an assigned variable is retyped to read a never-assigned one at the
+    // same place, and is then reached again without RUN.
+    {
+        let mut acc = Acc::default();
+        for (first, second, via, want) in [
+            (vec!["10 A=1", "20 PRINT A"], "20 PRINT B", "GOTO 20", vec![("Use of undeclared variable 'B'.", 20u64)]),
+            (vec!["10 A=1", "20 X=A+A"], "20 X=B+C", "GOTO 20", vec![("Use of undeclared variable 'B'.", 20), ("Use of undeclared variable 'C'.", 20)]),
+            (vec!["10 A=1: GOSUB 20: END", "20 PRINT A: RETURN"], "20 PRINT Q: RETURN", "GOSUB 20", vec![("Use of undeclared variable 'Q'.", 20)]),
+            (vec!["10 A=1", "20 PRINT A"], "20 PRINT A", "GOTO 20", vec![]),
+        ] {
+            for tracing in [false, true] {
+                let mut s = Sess::new();
+                s.it.enable_warnings = true;
+                s.it.enable_tracing = tracing;
+                let mut hist = vec![];
+                let mut none = std::iter::empty();
+                for l in &first {
+                    let e = Ev::Line(l.to_string());
+                    let _ = s.apply(&e);
+                    hist.push(e);
+                }
+                let _ = s.run_line("RUN", &mut none, 200);
+                hist.push(Ev::LineToIdle("RUN".into()));
+                let e = Ev::Line(second.to_string());
+                let _ = s.apply(&e);
+                hist.push(e);
+                s.recs.clear();
+                let _ = s.run_line(via, &mut none, 200);
+                hist.push(Ev::LineToIdle(via.to_string()));
+                let warns: Vec<(String, Option<u64>)> = s.recs.iter().filter_map(|r| if let Rec::Warning(m, l) = r { Some((m.clone(), *l)) } else { None }).collect();
+                let ww: Vec<(String, Option<u64>)> = want.iter().map(|(m, l)| (m.to_string(), Some(*l))).collect();
+                acc.runs += 1;
+                if wnorm(&warns) != wnorm(&ww) {
+                    acc.violating += 1;
+                    acc.viol.push(Violation {
+                        signature: format!("warnings of a retyped line differ from the expected ones [{} -> {}]", first.last().unwrap(), second),
+                        detail: format!("{:?}, RUN, {:?}, {:?}: warnings {:?}, expected {:?}", first, second, via, warns, ww),
+                        case: case_history(&hist, true, tracing),
+                    });
+                }
+            }
+        }
+        merge(&total, acc);
+    }
     let acc = total.into_inner().unwrap();
     if acc.with_warnings == 0 || acc.trace_compared == 0 {
         machinery("vacuous: no program produced warnings / no trace was compared");
